@@ -1,4 +1,98 @@
 //! Drives the collector directly, without the VM (C03/C04 correspondence (a)).
-pub fn cmd_gc(_line: &str) -> String {
-    "todo".to_string()
+//!
+//! Case line: operations separated by blanks over a universe of objects numbered in creation order:
+//!   F | S | A        allocate a float / string / empty array (handed to the collector: trace)
+//!   Lx,y             push object x onto array y
+//!   Ri,j,...         GC::run with the given objects as roots (R alone: no roots)
+//!   Ux               GC::untrace(x): hand x and everything reachable from it over to the caller
+//!   D                GC::destroy (what Drop does)
+//! An operation that mentions a released object (or links into a non-array) is skipped: "skip".
+//! Observation per operation: `m<managed ids in the collector's order>a<ids still allocated>x<exact>`.
+use nederlang::object::{FromString, FromVec, Object, Type};
+use nederlang::verif;
+use std::fmt::Write as _;
+
+fn addr(o: Object) -> usize {
+    o.verif_raw() & !7usize
+}
+
+pub fn cmd_gc(line: &str) -> String {
+    verif::heap_reset();
+    verif::take_gc_log();
+    let mut gc = verif::GC::new();
+    let mut uni: Vec<Object> = Vec::new();
+    let mut out = String::new();
+    let alive = |o: Object| -> bool { verif::heap_stats().2.binary_search(&addr(o)).is_ok() };
+    for op in line.split_whitespace() {
+        let (k, rest) = op.split_at(1);
+        let ids: Vec<usize> = rest
+            .split(',')
+            .filter(|s| !s.is_empty())
+            .map(|s| s.parse().unwrap())
+            .collect();
+        let mut skipped = false;
+        if ids.iter().any(|i| *i >= uni.len() || !alive(uni[*i])) && k != "R" {
+            skipped = true;
+        } else {
+            match k {
+                "F" => uni.push(Object::float(uni.len() as f64 + 0.5, &mut gc)),
+                "S" => uni.push(Object::string(format!("s{}", uni.len()).as_str(), &mut gc)),
+                "A" => uni.push(Object::array(Vec::<Object>::new(), &mut gc)),
+                "L" => {
+                    let (x, y) = (uni[ids[0]], uni[ids[1]]);
+                    if y.tag() == Type::Array {
+                        let mut y = y;
+                        y.as_vec_mut().push(x);
+                    } else {
+                        skipped = true;
+                    }
+                }
+                "R" => {
+                    // released objects cannot be roots of a well-formed caller: leave them out
+                    let roots: Vec<Object> = ids
+                        .iter()
+                        .filter(|i| **i < uni.len() && alive(uni[**i]))
+                        .map(|i| uni[*i])
+                        .collect();
+                    gc.run(&[&roots]);
+                }
+                "U" => gc.untrace(uni[ids[0]]),
+                "D" => gc.destroy(),
+                _ => skipped = true,
+            }
+        }
+        if skipped {
+            out.push_str("skip;");
+            continue;
+        }
+        let managed = gc.verif_objects();
+        out.push('m');
+        for (n, w) in managed.iter().enumerate() {
+            let id = uni.iter().position(|o| o.verif_raw() == *w).map(|p| p as i64).unwrap_or(-1);
+            write!(out, "{}{}", if n > 0 { "." } else { "" }, id).unwrap();
+        }
+        out.push('a');
+        let live = verif::heap_stats().2;
+        let mut first = true;
+        for (i, o) in uni.iter().enumerate() {
+            if live.binary_search(&addr(*o)).is_ok() {
+                write!(out, "{}{}", if first { "" } else { "." }, i).unwrap();
+                first = false;
+            }
+        }
+        let log = verif::take_gc_log();
+        let inexact = log.iter().filter(|r| !r.exact).count();
+        write!(out, "x{};", inexact).unwrap();
+    }
+    // leave nothing behind: what the collector still manages is freed by its Drop; the rest here
+    drop(gc);
+    let live = verif::heap_stats().2;
+    for o in uni.iter() {
+        if live.binary_search(&addr(*o)).is_ok() {
+            o.free();
+        }
+    }
+    let (a, f, l) = verif::heap_stats();
+    write!(out, " END {} {} {}", a, f, l.len()).unwrap();
+    out
 }
